@@ -607,8 +607,9 @@ fn answer_json(a: &Option<Answer>) -> Value {
 
 fn is_product_guard(loc: &str, msg: &str) -> bool {
     // check_factors (lib.rs), residue.is_one() (lib.rs), try_factor p*q==n (relations.rs)
-    (loc.starts_with("/repo/src/lib.rs") && (msg.contains("left == right") || msg.contains("residue.is_one()")))
-        || (loc.starts_with("/repo/src/relations.rs") && msg.contains("p * q == *n"))
+    let file = loc.rsplit_once(':').map(|x| x.0).unwrap_or(loc);
+    (file.ends_with("src/lib.rs") && (msg.contains("left == right") || msg.contains("residue.is_one()")))
+        || (file.ends_with("src/relations.rs") && msg.contains("p * q == *n"))
 }
 
 pub struct SubCtx<'a> {
